@@ -121,11 +121,9 @@ Definition take_last {A} (k : nat) (l : list A) : list A := skipn (length l - k)
 
 Definition relativize (n o : name) : res name :=
   if is_subdomain n o then
-    (* Name(self[: -len(origin)]) ; -0 slices to the empty tuple *)
-    match o with
-    | [] => mk_name []
-    | _ => mk_name (drop_last (length o) n)
-    end
+    (* Name(self.labels[: len(self.labels) - len(origin.labels)]) (after fix c950a22; the
+       earlier self[: -len(origin)] sliced to the empty tuple for the empty origin) *)
+    mk_name (drop_last (length o) n)
   else Ok n.
 
 Definition derelativize (n o : name) : res name :=
